@@ -175,11 +175,40 @@ def opFamilyBounds : J.Op := fun j => do
   | .ok _ => pure <| J.obj [("ok", J.ofBool true)]
   | .error e => pure <| J.obj [("error", J.ofStr e)]
 
+/-- Spec: the decision space offers every candidate (cross) of the population to the optimiser -/
+def opSpecCover : J.Op := fun j => do
+  let cands ← J.field j "cands" (J.mat J.nat)
+  let xmap ← J.field j "xmap" (J.mat J.nat)
+  let space ← J.field j "space" (J.list J.nat)
+  pure <| J.ofBool (SelProt.specCover cands xmap space)
+
+def spaceToJson (s : SelProt.Space) : Json :=
+  J.obj [("ndecn", J.ofNat s.ndecn), ("space", J.ofList J.ofNat s.space),
+         ("lower", J.ofList J.ofNat s.lower), ("upper", J.ofList J.ofNat s.upper)]
+
+/-- model of the decision space of `problem()` and the Spec evaluated on the implementation's space -/
+def opSpace : J.Op := fun j => do
+  let subset ← J.field j "subset" J.bool
+  let nopt ← J.field j "nopt" J.nat
+  let ndecn ← J.field j "ndecn" J.nat
+  let ub ← J.fieldD j "ub" J.nat 1
+  pure <| spaceToJson (if subset then SelProt.subsetSpace nopt ndecn else SelProt.vectorSpace nopt ub)
+
+def opSpecSpace : J.Op := fun j => do
+  let subset ← J.field j "subset" J.bool
+  let nopt ← J.field j "nopt" J.nat
+  let ndecn ← J.field j "ndecn" J.nat
+  let space ← J.fieldD j "space" (J.list J.nat) []
+  let lower ← J.field j "lower" (J.list J.nat)
+  let upper ← J.field j "upper" (J.list J.nat)
+  pure <| J.ofBool (SelProt.specSpace subset nopt ⟨ndecn, space, lower, upper⟩)
+
 def ops : List (String × J.Op) :=
   [("c07.sample", opSample), ("c07.spec", opSpec), ("c07.xmapix", opXmapix),
    ("c07.sorting", opSorting), ("c07.spec_topk", opSpecTopK),
    ("c07.mo_choice", opMoChoice), ("c07.spec_argmax", opSpecArgmax), ("c07.ndset_dist", opNdsetDist),
    ("c07.uc_bounds", opUcBounds), ("c07.family_bounds", opFamilyBounds),
-   ("c07.embv_bounds", opEmbvBounds)]
+   ("c07.embv_bounds", opEmbvBounds), ("c07.spec_cover", opSpecCover),
+   ("c07.space", opSpace), ("c07.spec_space", opSpecSpace)]
 
 end Drv.C07
